@@ -99,20 +99,42 @@ pub fn fnv(b: &[u8]) -> u64 {
     h
 }
 
-/// Runs `f` on another thread; returns None if it does not finish within `secs` (hang) - the thread is leaked.
-pub fn with_timeout<T: Send + 'static>(secs: u64, f: impl FnOnce() -> T + Send + 'static) -> Option<T> {
-    let slot: Arc<Mutex<Option<T>>> = Arc::new(Mutex::new(None));
+/// location and message of the most recent panic on any thread (recorded by the hook installed in main)
+pub static LAST_PANIC: Mutex<Option<(String, String)>> = Mutex::new(None);
+pub fn install_panic_recorder(verbose: bool) {
+    let prev = std::panic::take_hook();
+    std::panic::set_hook(Box::new(move |info| {
+        let loc = info.location().map(|l| format!("{}:{}:{}", l.file(), l.line(), l.column())).unwrap_or_default();
+        let msg = if let Some(s) = info.payload().downcast_ref::<&str>() { s.to_string() } else if let Some(s) = info.payload().downcast_ref::<String>() { s.clone() } else { "panic".to_string() };
+        if let Ok(mut g) = LAST_PANIC.lock() { *g = Some((loc, msg)); }
+        if verbose { prev(info); }
+    }));
+}
+
+/// Outcome of a watched run: finished, did not finish in time, or the thread died of a panic that no `catch` guarded
+pub enum Watched<T> { Done(T), TimedOut, Panicked(String) }
+
+/// Runs `f` on another thread (64 MiB stack); a hang leaves the thread leaked.
+pub fn watch<T: Send + 'static>(secs: u64, f: impl FnOnce() -> T + Send + 'static) -> Watched<T> {
+    let slot: Arc<Mutex<Option<Result<T, String>>>> = Arc::new(Mutex::new(None));
     let s2 = slot.clone();
     let (tx, rx) = std::sync::mpsc::channel::<()>();
     std::thread::Builder::new().stack_size(64 << 20).spawn(move || {
-        let r = f();
+        let r = catch(std::panic::AssertUnwindSafe(f));
         *s2.lock().unwrap() = Some(r);
         let _ = tx.send(());
     }).unwrap();
     match rx.recv_timeout(std::time::Duration::from_secs(secs)) {
-        Ok(()) => slot.lock().unwrap().take(),
-        Err(_) => None,
+        Ok(()) => match slot.lock().unwrap().take() { Some(Ok(t)) => Watched::Done(t), Some(Err(m)) => Watched::Panicked(m), None => Watched::Panicked("no result".into()) },
+        Err(std::sync::mpsc::RecvTimeoutError::Timeout) => Watched::TimedOut,
+        Err(_) => Watched::Panicked("worker thread died".into()),
     }
+}
+
+/// Runs `f` on another thread; returns None if it does not finish within `secs` (hang) - the thread is leaked.
+/// A panic inside `f` is re-raised on the calling thread (it is not a hang).
+pub fn with_timeout<T: Send + 'static>(secs: u64, f: impl FnOnce() -> T + Send + 'static) -> Option<T> {
+    match watch(secs, f) { Watched::Done(t) => Some(t), Watched::TimedOut => None, Watched::Panicked(m) => std::panic::resume_unwind(Box::new(m)) }
 }
 
 /// catch_unwind wrapper that returns the panic message
